@@ -73,10 +73,10 @@ mut("c04-string-delim-eats", "C04", "esutil/recfile/records.cpp",
     "            while (c == ' ' || c == '\\t') {\n                c = fgetc(mFptr);\n            }",
     "blanks AND tabs skipped before the delimiter: with a tab delimiter the leading tab/blank of the next string field is eaten")
 # ---------------------------------------------------------------- C10
-mut("c10-stale-answer", "C10", "esutil/wcsutil.py",
-    "        self.lonlat_answer[0] = lon\n        self.lonlat_answer[1] = lat\n",
-    "        if self.lonlat_answer[0] == 0.0 or abs(self.lonlat_answer[0] - lon) > 1e-7:\n            self.lonlat_answer[0] = lon\n        self.lonlat_answer[1] = lat\n",
-    "root finder's target longitude only refreshed when it moved by more than 1e-7 deg: answers depend on the previous search")
+mut("c10-warm-start", "C10", "esutil/wcsutil.py",
+    "        xyguess[0], xyguess[1] = self.sky2image(\n            lon, lat, find=False, distort=False,\n        )\n        xy = self._fsolve_xy(xyguess, xtol=xtol)\n",
+    "        if xyguess[0] == 0.0 and xyguess[1] == 0.0:\n            xyguess[0], xyguess[1] = self.sky2image(\n                lon, lat, find=False, distort=False,\n            )\n        xy = self._fsolve_xy(xyguess, xtol=xtol)\n        xyguess[:] = xy\n",
+    "root finder warm-started from the previous solution ('optimisation'): answers depend on the previous search")
 mut("c10-pv-swap", "C10", "esutil/wcsutil.py",
     '_scamp_map["pv2_8"] = (1, 2)\n_scamp_map["pv2_9"] = (2, 1)', '_scamp_map["pv2_8"] = (2, 1)\n_scamp_map["pv2_9"] = (1, 2)',
     "two third-order TPV terms of the second axis swapped")
